@@ -72,7 +72,12 @@ class Generator(CodeGenerator):
         def check_duplicate_can_ids(
             self: Any, fcp: FcpV2, impl: Impl
         ) -> Result[Nil, FcpError]:
-            impl_ids = [impl.fields.get("id") for impl in fcp.impls]
+            if impl.protocol != "can":
+                return Ok(())
+
+            impl_ids = [
+                impl.fields.get("id") for impl in fcp.impls if impl.protocol == "can"
+            ]
             if impl_ids.count(impl.fields.get("id")) > 1:
                 return error("Duplicate ids", node=impl)
             else:
